@@ -887,6 +887,8 @@ class RspawnRunner:
         cmd = b""
         for d in sc["delnums"]:
             cmd += bytes([d]) + b"%d/%d\0" % (self.msgid % h.split, self.msgid) + b"sender@src.example\0" + b"rcpt%d@dst.example\0" % d
+        if sc.get("reuse"):
+            return self.run_reuse(sc, stats, env)
         rc, o, err = sandbox.run_proc([self.tree.path("qmail-rspawn")], env, stdin=cmd, timeout=30)
         if rc is None:
             stats.inconclusive += 1
@@ -941,6 +943,51 @@ def confirm(runfn, stats):
     stats.violations = keep
 
 
+def _run_reuse(self, sc, stats, env):
+    """one spawner, one delivery slot used again and again: every delivery is judged by its own program's output and status, whatever the
+    slot held before (added after seeded change C09-M). sc["reuse"] = list of outputs, delivered one after the other in slot delnums[0]."""
+    outs = [vlib.unjson(x) for x in sc["reuse"]]
+    env = dict(env)
+    env.pop("SI_OUT_HEX", None)
+    env["SI_OUT_SEQ_HEX"] = ",".join(o.hex() for o in outs)
+    d = sc["delnums"][0]
+    status = tuple(sc["status"])
+    s = sandbox.Session([self.tree.path("qmail-rspawn")], env)
+    try:
+        got = s.read_until(lambda b: len(b) or None)
+        if not got:
+            stats.inconclusive += 1
+            return None
+        buf = got[1:]
+        for i, out in enumerate(outs):
+            s.send(bytes([d]) + b"%d/%d\0" % (self.msgid % self.h.split, self.msgid) + b"sender@src.example\0" + b"rcpt%d@dst.example\0" % i)
+            while b"\0" not in buf[1:]:          # a report = delivery-number byte (may be 0) + text + NUL
+                more = s.read_until(lambda b: len(b) or None)
+                if more is None:
+                    stats.inconclusive += 1
+                    return None
+                if not more:
+                    return "rspawn: the spawner closed its report channel without reporting delivery #%d in the reused slot %d" % (i + 1, d)
+                buf += more
+            end = buf.index(b"\0", 1)
+            rep, buf = buf[:end], buf[end + 1:]
+            if rep[:1] != bytes([d]):
+                return "rspawn: delivery %d in slot %d answered with a report for slot %r" % (i, d, rep[:1])
+            v, slack, cls = judge_report(status, out, rep[1:])
+            if v:
+                return ("rspawn: delivery #%d in the reused slot %d: " % (i + 1, d) + v + " | qmail-remote output %r status %r relayed %r; earlier outputs in this slot %r"
+                        % (out[:120], status, rep[1:121], [o[:40] for o in outs[:i]]))
+            if slack:
+                stats.slack += 1
+        stats.case(scenario=sc, nontrivial=len({o[:3] for o in outs}) > 1, classes=["rspawn:slot_reused"])
+        return None
+    finally:
+        s.kill()
+
+
+RspawnRunner.run_reuse = _run_reuse
+
+
 def e2e_worker(job):
     tree, wid, seed, n_tcp, n_rs, fixed = job
     stats = vlib.Stats()
@@ -990,6 +1037,13 @@ def fixed_scenarios():
         out.append({"kind": "rspawn", "out": vlib.jsonable(o), "status": s, "delnums": [0, 5]})
     for s in (["kill", 11], ["exit", 111], ["exit", 100], ["exit", 1], ["exit", 0]):
         out.append({"kind": "rspawn", "out": vlib.jsonable(b"r\0Kaccepted\0"), "status": s, "delnums": [3], "linger": 150})
+    # one delivery slot used for deliveries that end differently, in every order (added after seeded change C09-M)
+    ends = [b"r\0Kaccepted by the peer\0", b"hrefused\0Drefused by the peer\0", b"stemp\0Ztemporarily refused\0", b"r\0Zgreylisted\0", b"Zconnection died\0",
+            b"r\0K" + b"long acceptance text " * 60 + b"\0", b""]
+    for i in range(len(ends)):
+        for j in range(len(ends)):
+            if i != j:
+                out.append({"kind": "rspawn", "out": vlib.jsonable(b""), "status": ["exit", 0], "delnums": [(3 * i + j) % 20], "reuse": [vlib.jsonable(ends[i]), vlib.jsonable(ends[j]), vlib.jsonable(ends[i])]})
     out += multi_fixed()
     return out
 
